@@ -118,6 +118,35 @@ Theorem C18_list_exact_refuted :
 Proof. exact list_exact_refuted. Qed.
 Print Assumptions C18_list_exact_refuted.
 
+(* a listing is complete or it fails - whatever the state of the caller's
+   context: FSBucket.Objects never consults it, no error is surfaced and the
+   names are exactly the stored names with the prefix (ctx_done = the context
+   is already cancelled / past its deadline) *)
+Theorem C18_listing_complete_or_error : forall m pre ctx_done, reachable m ->
+  deviating (files m) (OList pre) = false ->
+  list_ctx ctx_done m pre = (false, filter (fun n => has_prefix n pre) (map (fun kv => join_path (fst kv)) (files m))) /\
+  listing_ok (filter (fun n => has_prefix n pre) (map (fun kv => join_path (fst kv)) (files m)))
+             (list_ctx ctx_done m pre) = true.
+Proof. exact listing_complete_or_error. Qed.
+Print Assumptions C18_listing_complete_or_error.
+
+(* several buckets in one process, identified by (storage root, name): in
+   every interleaving of operations on any number of buckets, what one bucket
+   answers and holds is what it would answer and hold if its own operations
+   were run alone on a fresh bucket - and hence (C18_refinement) the answers
+   of its own association list.  Two storage roots with equal bucket names
+   are different buckets. *)
+Theorem C18_buckets_independent : forall ops w b,
+  proj_res b (fst (run_world w ops)) = fst (run_fs (w b) (proj_ops b ops)) /\
+  snd (run_world w ops) b = snd (run_fs (w b) (proj_ops b ops)).
+Proof. exact world_independent. Qed.
+Print Assumptions C18_buckets_independent.
+Theorem C18_each_bucket_refines_its_map : forall ops b,
+  proj_res b (fst (run_world world_init ops)) = fst (run_spec false [] (proj_ops b ops)) /\
+  files (snd (run_world world_init ops) b) = snd (run_spec false [] (proj_ops b ops)).
+Proof. exact world_bucket_refines. Qed.
+Print Assumptions C18_each_bucket_refines_its_map.
+
 (* storage.Copy inside a bucket (histories with copies are covered by
    C18_refinement: OCopy is an operation).  Between different names it is
    write(dst, read(src)); afterwards destination and source both read as the
